@@ -27,11 +27,11 @@ def e1(ctx):
         ctx.model_check("MCListing", "MCListing_%s.cfg" % w, expect_violated=(w,), coverage=False, tag=w, timeout=600)
 
 
-def single_path_trees(ctx, tree, descs):
+def single_path_trees(ctx, tree, descs, tag=""):
     """one materialised tree per descriptor: the path alone in a channel directory of the matching kind"""
     roots = []
     for i, d in enumerate(descs):
-        root = os.path.join(ctx.work, "c15", "d%d" % i)
+        root = os.path.join(ctx.work, "c15", "%sd%d" % (tag, i))
         p = os.path.join(root, d["rel"])
         os.makedirs(os.path.dirname(p), exist_ok=True)
         chdir = os.path.join(root, tree.chans[d["ch"] - 1]["path"])
@@ -49,70 +49,80 @@ def e3(ctx):
     from digital_rf import list_drf
 
     rng = ctx.rng
-    tree, descs, T0 = drv.descriptors()
-    nd = len(descs)
-    base_ms = tree.base_s * 1000
-    root = os.path.join(ctx.work, "c15", "events")  # paths of events need not exist
-    ids = {os.path.join(root, d["rel"]): i + 1 for i, d in enumerate(descs)}
-    keys = ("kind", "pfx", "t", "tmp", "ext", "tok", "depth")
-    adescs = [{k: d[k] for k in keys} for d in descs]
-    singles = single_path_trees(ctx, tree, descs)
-    tmp_ids = [i + 1 for i, d in enumerate(descs) if d["tmp"]]
-    valid_ids = [i + 1 for i, d in enumerate(descs) if d["kind"] in ("rf", "md") and not d["tmp"] and d["ext"] and d["tok"] and d["depth"]]
     count = dict(disp=0, moves=0, single=0, dir=0, lsq=0, delivered=0, refused_constructions=0, scenarios=0)
     scen = []
-    windows = drv.C15_WINDOWS if not ctx.quick else drv.C15_WINDOWS[:7]
-    for fl in drv.flag_combos():
-        for (ws, we) in windows:
-            o = drv.make_opts(fl, True, None if ws is None else T0 + ws, None if we is None else T0 + we)
-            try:
-                h = drv.make_handler(digital_rf, base_ms, o)
-            except ValueError:
-                count["refused_constructions"] += 1   # no file type included: the handler refuses to exist (not part of C15)
-                continue
-            evs = []
-            # single-path events
-            cases = [(k, False, s, 0) for k in ("created", "modified", "deleted") for s in range(1, nd + 1)]
-            dirs = [(k, True, s, (s % nd) + 1 if k == "moved" else 0) for k in ("created", "modified", "deleted", "moved")
-                    for s in rng.sample(range(1, nd + 1), 3)]
-            moves = [("moved", False, s, d) for s in range(1, nd + 1) for d in range(1, nd + 1) if s != d]
-            if ctx.quick:
-                cases = rng.sample(cases, 30)
-                pick = rng.sample(moves, 28)
-                # the pairs the property names: finalizing renames and renames of valid files to non-matching names
-                pick += [("moved", False, rng.choice(tmp_ids), rng.choice(valid_ids)) for _ in range(6)]
-                pick += [("moved", False, rng.choice(valid_ids), rng.choice(tmp_ids)) for _ in range(6)]
-                # renames between two finalized names (of different times: one end may lie outside the window)
-                pick += [("moved", False, a, b) for a, b in (rng.sample(valid_ids, 2) for _ in range(10))]
-                moves = pick
-                dirs = dirs[:4]
-            for (k, isdir, s, d) in cases + dirs + moves:
-                e = drv.dispatch_event(h, wev, root, descs, ids, k, isdir, s, d)
-                evs.append(e)
-                count["disp"] += 1
-                count["moves" if k == "moved" and not isdir else ("dir" if isdir else "single")] += 1
-                count["delivered"] += len(e["outs"])
-            # the same question to the real listing
-            qs = range(nd) if not ctx.quick else rng.sample(range(nd), 12)
-            for i in qs:
-                r, p = singles[i]
-                kw = drv._kwargs(tree, o, False)
+    all_descs = []
+
+    def universe(base_s, windows, flags, tag):
+        tree, descs, T0 = drv.descriptors(base_s)
+        nd = len(descs)
+        base_ms = tree.base_s * 1000
+        root = os.path.join(ctx.work, "c15", "events" + tag)  # paths of events need not exist
+        ids = {os.path.join(root, d["rel"]): i + 1 for i, d in enumerate(descs)}
+        keys = ("kind", "pfx", "t", "tmp", "ext", "tok", "depth")
+        adescs = [{k: d[k] for k in keys} for d in descs]
+        singles = single_path_trees(ctx, tree, descs, tag)
+        tmp_ids = [i + 1 for i, d in enumerate(descs) if d["tmp"]]
+        valid_ids = [i + 1 for i, d in enumerate(descs) if d["kind"] in ("rf", "md") and not d["tmp"] and d["ext"] and d["tok"] and d["depth"]]
+        for fl in flags:
+            for (ws, we) in windows:
+                o = drv.make_opts(fl, True, None if ws is None else T0 + ws, None if we is None else T0 + we)
                 try:
-                    listed = p in list_drf.lsdrf(r, **kw)
-                    raised = False
-                except Exception:
-                    listed, raised = False, True
-                e = drv.dispatch_event(h, wev, r, descs, {p: i + 1}, "created", False, i + 1, 0)
-                # dispatch_event joins root and rel: same path as p
-                evs.append(dict(ev="lsq", d=i + 1, ck=descs[i]["ck"], raised=raised, listed=listed,
-                                dlv=bool(e["outs"]) and e["outs"][0]["k"] == "created" and e["outs"][0]["p"] == i + 1))
-                count["lsq"] += 1
-            name = "f%d%d%d%d_w%s_%s" % (fl[0], fl[1], fl[2], fl[3], ws, we)
-            for c in range(0, len(evs), 500):
-                scen.append(dict(name="%s.%d" % (name, c // 500), desc="flags drf=%s dmd=%s drfprops=%s dmdprops=%s window %s..%s ms around T"
-                                 % (fl[0], fl[1], {0: False, 1: True, 2: None}[fl[2]], {0: False, 1: True, 2: None}[fl[3]], ws, we),
-                                 descs=adescs, o=o, events=evs[c:c + 500]))
-            count["scenarios"] += 1
+                    h = drv.make_handler(digital_rf, base_ms, o)
+                except ValueError:
+                    count["refused_constructions"] += 1   # no file type included: the handler refuses to exist (not part of C15)
+                    continue
+                evs = []
+                # single-path events
+                cases = [(k, False, s, 0) for k in ("created", "modified", "deleted") for s in range(1, nd + 1)]
+                dirs = [(k, True, s, (s % nd) + 1 if k == "moved" else 0) for k in ("created", "modified", "deleted", "moved")
+                        for s in rng.sample(range(1, nd + 1), 3)]
+                moves = [("moved", False, s, d) for s in range(1, nd + 1) for d in range(1, nd + 1) if s != d]
+                if ctx.quick:
+                    cases = rng.sample(cases, 30)
+                    pick = rng.sample(moves, 28)
+                    # the pairs the property names: finalizing renames and renames of valid files to non-matching names
+                    pick += [("moved", False, rng.choice(tmp_ids), rng.choice(valid_ids)) for _ in range(6)]
+                    pick += [("moved", False, rng.choice(valid_ids), rng.choice(tmp_ids)) for _ in range(6)]
+                    # renames between two finalized names (of different times: one end may lie outside the window)
+                    pick += [("moved", False, a, b) for a, b in (rng.sample(valid_ids, 2) for _ in range(10))]
+                    moves = pick
+                    dirs = dirs[:4]
+                for (k, isdir, s, d) in cases + dirs + moves:
+                    e = drv.dispatch_event(h, wev, root, descs, ids, k, isdir, s, d)
+                    evs.append(e)
+                    count["disp"] += 1
+                    count["moves" if k == "moved" and not isdir else ("dir" if isdir else "single")] += 1
+                    count["delivered"] += len(e["outs"])
+                # the same question to the real listing
+                qs = range(nd) if not ctx.quick else rng.sample(range(nd), 12)
+                for i in qs:
+                    r, p = singles[i]
+                    kw = drv._kwargs(tree, o, False)
+                    try:
+                        listed = p in list_drf.lsdrf(r, **kw)
+                        raised = False
+                    except Exception:
+                        listed, raised = False, True
+                    e = drv.dispatch_event(h, wev, r, descs, {p: i + 1}, "created", False, i + 1, 0)
+                    # dispatch_event joins root and rel: same path as p
+                    evs.append(dict(ev="lsq", d=i + 1, ck=descs[i]["ck"], raised=raised, listed=listed,
+                                    dlv=bool(e["outs"]) and e["outs"][0]["k"] == "created" and e["outs"][0]["p"] == i + 1))
+                    count["lsq"] += 1
+                name = "%sf%d%d%d%d_w%s_%s" % (tag, fl[0], fl[1], fl[2], fl[3], ws, we)
+                for c in range(0, len(evs), 500):
+                    scen.append(dict(name="%s.%d" % (name, c // 500), desc="flags drf=%s dmd=%s drfprops=%s dmdprops=%s window %s..%s ms around T"
+                                     % (fl[0], fl[1], {0: False, 1: True, 2: None}[fl[2]], {0: False, 1: True, 2: None}[fl[3]], ws, we),
+                                     descs=adescs, o=o, base_s=tree.base_s, events=evs[c:c + 500]))
+                count["scenarios"] += 1
+
+        all_descs.append(descs)
+
+    universe(None, drv.C15_WINDOWS if not ctx.quick else drv.C15_WINDOWS[:7], drv.flag_combos(), "")
+    # the same grammar in the first hour after the epoch: window bounds that fall exactly on 1970-01-01T00:00:00Z
+    T0 = 600000
+    universe(0, [(None, -T0), (-T0, None), (-T0, -T0), (-T0, 0)], [(True, True, 2, 2), (True, False, 1, 0), (False, True, 0, 1)], "epoch-")
+    descs = all_descs[0]
     return scen, count, descs
 
 
@@ -192,7 +202,7 @@ def replay(ctx, path):
     import digital_rf
     import watchdog.events as wev
 
-    tree, descs, T0 = drv.descriptors()
+    tree, descs, T0 = drv.descriptors(sc.get("base_s"))
     root = os.path.join(ctx.work, "c15", "events")
     ids = {os.path.join(root, d["rel"]): i + 1 for i, d in enumerate(descs)}
     h = drv.make_handler(digital_rf, tree.base_s * 1000, sc["o"])
